@@ -14,7 +14,7 @@ ID = "C20"
 MANIFEST = {
     "technique": "differential property testing (Hypothesis): a library of access programs compiled with numba.njit vs the same functions interpreted (.py_func) on the same generated array, both vs the generated value; reference counts before/after repeated calls",
     "level_text": "Generated-input exploration: a fixed menu of array types, one or more per layout node class (NumpyArray, RegularArray, ListOffsetArray32/U32/64, ListArray32/64, IndexedArray, IndexedOptionArray32/64, ByteMaskedArray, BitMaskedArray, UnmaskedArray, RecordArray with and without field names, UnionArray, VirtualArray, partitioned arrays), each filled with generated values under generated physical details (offset origins, gaps, unreachable content, mask bytes and bit padding, partition boundaries); a fixed library of access programs (len, nested iteration with early exit, integer / range / field indexing incl. negative and out-of-range indexes, attribute access, 'in', numpy.asarray of numeric leaves, 'is None' tests, ArrayBuilder calls, returning arguments and sub-arrays) is compiled once per type and run on every generated array. Each compiled result must equal the interpreter's result for the same function and array, and both must equal the result computed on the generated nested-list value; arguments come back unchanged; sys.getrefcount of the argument and of its layout is the same before and after repeated calls. Held on everything generated.",
-    "level_note": "Trusted: the akshim emulation of the pybind11 module awkward._ext (so the reference counting of real pybind objects is not observed: the layout objects whose counts are compared are the emulation's), numba 0.67 / llvmlite with one harness-side adaptation (numba.core.cgutils.pointer_add restored to its historical integer-address form, see DESIGN.md C20), akmodel.decode. A program that the connector refuses to compile for a node class (TypingError) is counted as unsupported, not as a violation.",
+    "level_note": "Trusted: the akshim emulation of the pybind11 module awkward._ext (so the reference counting of real pybind objects is not observed: the layout objects whose counts are compared are the emulation's), numba 0.67 / llvmlite with one harness-side adaptation (numba.core.cgutils.pointer_add restored to its historical integer-address form, see DESIGN.md C20), akmodel.decode. A program that the connector refuses to compile for a node class (TypingError) is counted as unsupported, not as a violation. Array types also cover uint8/16/32/64, int8, int32 and float32 leaves (eager and virtual) with values at the ends of their ranges, and the programs include slicing a slice, indexing and iterating a slice, and passing raw leaves to builder.real.",
 }
 RULE = ("case = (menu entry = array type + encoding classes, generated value and physical details, program, integer arguments); expected = the program run on the nested-list value; "
         "non-trivial = the array is non-empty and the program touches at least one element (or an error is expected); distinct by hash of the case")
